@@ -74,6 +74,7 @@ type pruneCase struct {
 	drift    int64
 	seed     uint64
 	noop     bool
+	needTx   bool // every block holds a transaction (class cross/history on per-transaction layouts)
 	refs     map[pIn]*memory.Database
 	refOps   map[pIn][2]int
 	touched  map[felt.Felt][]felt.Felt
@@ -125,6 +126,7 @@ func (s *session) binary() binary {
 	}
 	f := flags{entries: nProd + 1, prune: true, retained: s.cur.R, minAge: s.minAge}
 	return binary{
+		prod: true,
 		desc: f.String(), target: f.target(), nEntries: f.entries,
 		build: func(rl *runLog, cancel func()) *migration.Registry {
 			return prodRegistry(s.pc.e, f, rl, &toy{id: idxAux, units: 1, cancel: cancel, executed: map[outcome]int{}})
@@ -177,7 +179,7 @@ func (pc *pruneCase) buildPruneChain(n int) {
 		o := chaingen.Opts{Version: ver, MaxTxs: maxTxs, MaxDiff: maxDiff, MaxEvents: 2, Empty: empty}
 		for try := 0; ; try++ {
 			b := w.gen.Next(ft, parent, o)
-			if pc.noop || !hasNoopWrite(b) {
+			if (pc.noop || !hasNoopWrite(b)) && (!pc.needTx || len(b.B.Transactions) > 0) {
 				return b
 			}
 			if try == 12 {
@@ -187,7 +189,7 @@ func (pc *pruneCase) buildPruneChain(n int) {
 	}
 	var parent *chaingen.Block
 	for i := 0; i < n; i++ {
-		b := gen(parent, emptyNum > 0 && t.Draw("empty", 5) < emptyNum-1)
+		b := gen(parent, emptyNum > 0 && t.Draw("empty", 5) < emptyNum-1 && !pc.needTx)
 		w.chain = append(w.chain, b)
 		parent = b
 	}
@@ -232,7 +234,10 @@ func (pc *pruneCase) buildPruneBase(sdlPending bool) {
 	} else {
 		applied.Set(idxSDL)
 	}
-	c.Must(migration.WriteSchemaMetadata(mem, migration.SchemaMetadata{CurrentVersion: applied, LastTargetVersion: applied}), "metadata")
+	putMeta(c, mem, migration.SchemaMetadata{CurrentVersion: applied, LastTargetVersion: applied}, w.golden)
+	if w.golden {
+		putLegacy(c, mem)
+	}
 	pc.base = mem
 	w.base = mem
 }
@@ -256,12 +261,17 @@ func (pc *pruneCase) drawInputs(label string, lo pIn, first bool) pIn {
 
 func runPrune(e *env, cls int) {
 	c, t := e.c, e.c.T
-	pc := &pruneCase{e: e, c: c, w: &world{c: c}, refs: map[pIn]*memory.Database{}, refOps: map[pIn][2]int{}}
+	pc := &pruneCase{e: e, c: c, w: &world{c: c, sdlCkpt: -1}, refs: map[pIn]*memory.Database{}, refOps: map[pIn][2]int{}}
 	n := []int{0, 12, 1, 2, 5, 9, 10, 11, 20, 25, 30, 40, 60}[t.Draw("blocks", 13)]
 	// rare shapes, each its own early draw, so that what they uncover does not hide the rest
 	pc.noop = t.Chance("shape.noop_writes", 1, 12)
 	allowZero := t.Chance("shape.cutoff_zero", 1, 12)
 	pc.buildPruneChain(n)
+	pc.w.golden = t.Chance("golden", 1, 2)
+	e.golden = pc.w.golden
+	if e.golden {
+		c.Probe("golden_records")
+	}
 	pc.buildPruneBase(t.Chance("sdl.pending", 1, 3))
 	pc.seed = t.U64("sched.seed")
 	if t.Chance("sched.simple", 1, 4) {
